@@ -2,6 +2,7 @@
 
 from ..isa import Isa
 from ..encoding import Instruction, Syntax, Operand
+from ...utils.bitfun import wrap_negative
 from .registers import RiscvRegister
 from .tokens import RiscvToken, RiscvcToken
 from .rvc_relocations import BcImm11Relocation, BcImm8Relocation
@@ -78,7 +79,7 @@ class CSlli(RiscvcInstruction):
     def encode(self):
         tokens = self.get_tokens()
         tokens[0][0:2] = 0b10
-        tokens[0][2:7] = self.imm & 0x1F
+        tokens[0][2:7] = self.imm
         tokens[0][7:12] = self.rd.num
         tokens[0][13:16] = 0b0000
         return tokens[0].encode()
@@ -409,7 +410,7 @@ class CLui(RiscvcInstruction):
     syntax = Syntax(["c", ".", "lui", " ", rd, ",", " ", imm])
 
     def encode(self):
-        imm6 = self.imm & 0x3F
+        imm6 = wrap_negative(self.imm, 6)
         tokens = self.get_tokens()
         tokens[0].op = 0b01
         tokens[0][2:7] = imm6 & 0x1F
